@@ -505,6 +505,42 @@ def restart_cases():
         probs = spd_problems(w2.endpoints['A'].kernel, expect2)
         out.append(('restart-reconfigured:A:%s' % lab, [('restart-reconfigured:' + s2, m + ' [restart with the %s configuration, leftovers %r]'
                                                           % (lab, before)) for s2, m in probs]))
+    # an entry is added or removed between two incarnations: an ACQUIRE carrying its index is ignored by the incarnation
+    # that does not have the entry and negotiated by the one that has it (whatever the other one did with that index)
+    c = expect[0]
+
+    def acq(w3, index):
+        sel = K.enc_selector(c['my'], c['peer'], 4000, 23, 6, 32, 32)
+        n0, k0 = len(w3.sent_log), len(w3.endpoints['A'].kernel.log)
+        w3.step(('kevent', 'A', K.enc_acquire(c['my'], c['peer'], sel, index << 3 | 1)))
+        return [d for d in w3.sent_log[n0:] if d.sender == 'A'], len(w3.endpoints['A'].kernel.log) - k0
+    for lab, keep in (('esp-entry', 0), ('ah-entry', 1)):
+        other = spec[0][2][1 - keep]['index']
+        confs1, addrs1, _ = build_confs(fam, [('a', 'b', [spec[0][2][keep]])])
+        for order in ('added', 'removed'):
+            first, second = (confs1, confs) if order == 'added' else (confs, confs1)
+            w3 = World(first, addrs)
+            w3.sent_log = []
+            probs = []
+            for phase, cf in (('before', first), ('after', second)):
+                if phase == 'after':
+                    w3.confs['A'] = cf['A']
+                    w3.step(('restart', 'A'))
+                    w3.net[:] = []
+                has = cf is confs
+                sent, nreq = acq(w3, other)
+                if not w3.endpoints['A'].alive:
+                    probs.append(('dies', 'the ACQUIRE killed the daemon (%s the restart)' % phase))
+                    break
+                if has and not sent:
+                    probs.append(('known-index-ignored', 'the %s configuration has an entry with index %d, the ACQUIRE '
+                                  'carrying it produced no request (%s the restart)' % ('new' if phase == 'after' else 'first', other, phase)))
+                if not has and (sent or nreq):
+                    probs.append(('unknown-index-effect', 'the %s configuration has no entry with index %d, the ACQUIRE '
+                                  'carrying it produced %d datagrams and %d netlink requests (%s the restart)' % (
+                                      'new' if phase == 'after' else 'first', other, len(sent), nreq, phase)))
+                w3.deliver_all()
+            out.append(('restart-entry-%s:A:%s' % (order, lab), [('restart-entry-%s:%s' % (order, s2), m) for s2, m in probs]))
     return out
 
 
